@@ -76,7 +76,7 @@ def _verdict(ctx, hc, hs, what, key, stalled):
     ctx.note("client-completed" if hc[1] == 1 else "server-completed" if hs[1] == 1 else "both-failed")
 
 
-@P.sub("bitflip", bit_case, quick=2400, thorough=150000)
+@P.sub("bitflip", bit_case, quick=2400, thorough=100000)
 def bitflip(case, ctx):
     """one bit of one handshake record payload flipped in flight"""
     proto, mutual, seed = case["proto"], case["mutual"], case["seed"]
